@@ -114,6 +114,10 @@ pub struct ScriptedServer {
     script: Vec<Step>,
     finale: Finale,
     pub finale_sent: bool,
+    /// answer the first (cookie-less) ClientHello with a HelloVerifyRequest; the scripted flight
+    /// follows the second ClientHello
+    cookie_exchange: bool,
+    pub hvr_sent: bool,
     started: bool,
     msg_seq: u16,
     rec_seq: u64,
@@ -191,6 +195,8 @@ impl ScriptedServer {
             script,
             finale: Finale::Proper,
             finale_sent: false,
+            cookie_exchange: false,
+            hvr_sent: false,
             started: false,
             msg_seq: 0,
             rec_seq: 0,
@@ -203,6 +209,11 @@ impl ScriptedServer {
             client_finished_verified: false,
             final_flight: vec![],
         }
+    }
+
+    pub fn with_cookie_exchange(mut self, on: bool) -> Self {
+        self.cookie_exchange = on;
+        self
     }
 
     pub fn with_finale(mut self, f: Finale) -> Self {
@@ -277,6 +288,16 @@ impl ScriptedServer {
                                 }
                                 let mut body = Bytes::from(h.body.clone());
                                 let Ok(hello) = ClientHello::decode(&mut body) else { continue };
+                                if self.cookie_exchange && hello.cookie.is_empty() {
+                                    // HelloVerifyRequest: message_seq 0, not part of any transcript
+                                    let hb = vec![0xfe, 0xfd, 8, 0xc0, 0x0c, 0x1e, 0x5e, 0xed, 0x00, 0x00, 0x01];
+                                    let hvr = Hs { msg_type: 3, length: hb.len() as u32, message_seq: 0, frag_off: 0, frag_len: hb.len() as u32, body: hb };
+                                    out.push(wire::encode_record(22, 0, self.rec_seq, &wire::encode_hs(&hvr)));
+                                    self.rec_seq += 1;
+                                    self.msg_seq = 1;
+                                    self.hvr_sent = true;
+                                    continue;
+                                }
                                 self.started = true;
                                 self.client_random = hello.random.to_bytes();
                                 self.transcript = raw.clone();
